@@ -32,7 +32,7 @@ def e2(rnd, n, maxlen):
             elif k < 0.4:
                 ep = rnd.randint(0, len(pl))
                 sk = rnd.randint(0, len(pl) + 2)
-                sc.append('enc %d %d -5 %d -28 %d %s' % (sof, ep, sk, len(pl), ' '.join(map(str, pl))))
+                sc.append('enc %d %d %d %d %d %d %s' % (sof, ep, rnd.choice([-5, -11, -4, -32]), sk, rnd.choice([-28, -84, -5, -12]), len(pl), ' '.join(map(str, pl))))
             else:
                 # garbage prefix + a few encoded frames, sometimes with a fault
                 g = [rnd.choice([END, ESC, 220, 221, rnd.randint(0, 255)]) for _ in range(rnd.choice([0, 0, 1, 2, 5, 20]))]
@@ -43,7 +43,8 @@ def e2(rnd, n, maxlen):
                 stream = stream[:2500]
                 ep = rnd.choice([0, 0, 0, rnd.randint(0, len(stream))])
                 sk = rnd.choice([0, 0, 0, rnd.randint(0, len(stream))])
-                sc.append('run %d %d -5 %d -28 %d %s' % (sof, ep, sk, len(stream), ' '.join(map(str, stream))))
+                # the codes the endpoints fail with are theirs - also the decoder's own "illegal sequence" coming from a sink or a source
+                sc.append('run %d %d %d %d %d %d %s' % (sof, ep, rnd.choice([-5, -11, -4, -32]), sk, rnd.choice([-28, -84, -84, -5, -12]), len(stream), ' '.join(map(str, stream))))
         yield sc
 
 
